@@ -108,7 +108,7 @@ def mk_sel(c, a, b):
     return ('sel', c, a, b)
 
 
-BOOL_HEADS = {'bc', 'fcmp', 'icmp', 'not', 'and', 'or', 'isnan', 'isnormal', 'isfinite', 'isinfinite', 'issignneg',
+BOOL_HEADS = {'bc', 'fcmp', 'icmp', 'not', 'and', 'or', 'fiszero', 'issubnormal', 'isnan', 'isnormal', 'isfinite', 'isinfinite', 'issignneg',
               'issignpos', 'pred', 'all', 'any', 'found', 'unord', 'ovf', 'tcmp', 'approx'}
 
 
